@@ -123,4 +123,13 @@ CLAIMED = {
             "single resolution of every DID are compared; did:jwk resolution over generated public/private JWKs is checked.",
             "Completion order is controlled at the future level (single polling thread). Iota network handler out of scope.",
             "DESIGN.md §3 C20"),
+    "C11": ("TLA+ spec JoseHeaderPolicy (rules R0-R10 written from RFC 7515/7797, complete decision table) evaluated by TLC; "
+            "every row executed at every encoder/decoder/verify entry point, acceptance compared in both directions",
+            "model_checking",
+            "TLC enumerates all 24 601 (protected, unprotected) header pairs of the parameter shapes named by the property and "
+            "computes the set of violated rules; the harness executes each row at 12+ entry points (three encoders incl. detached "
+            "and add_recipient, three decoders on raw crafted tokens, verify) — about 174 000 entry-point evaluations — and "
+            "requires accepted <=> no rule violated, plus verify <=> alg in the protected header.",
+            "Complete inside the enumerated parameter shapes; JSON (serde_json) trusted.",
+            "DESIGN.md §3 C11"),
 }
